@@ -1,8 +1,385 @@
 import StoneVerif.Model.Graph
-/-! Property C20 (placeholder while the proofs are being written). -/
+import StoneVerif.Lemmas.GraphComplete
+/-!
+# C20 — a route whitelist yields a dependency-closed, minimal API
+
+`Edge` is the dependency relation of the property text, `closure g seeds` the reference closure
+(fuel = number of nodes), `whitelistFilter` the code-following model of
+`IRGenerator._filter_namespaces_by_route_whitelist`.
+
+Side conditions (all decidable, evaluated by the driver on every dump, `Model/Graph.lean`):
+* `refsOk` - the dump is well formed (ids as documented, references name nodes);
+* `docsAgree` - every doc string the walk parses yields, in the namespace it is parsed in, what its
+  references denote where they were written;
+* `tagDefaultsOk` - the union of a tag default is the unwrapped type of its field;
+* `routeDocsClosed`, `seedDocRoutesKept` - the two kinds of doc edges the code does not follow.
+-/
 namespace StoneVerif.C20
 open StoneVerif.Graph
 
-theorem closure_contains_seeds_nil (g : Graph) : closure g [] = iter (succ g) g.nodes.length [] := rfl
+/-! ## The reference closure -/
+
+/-- `succ` computes exactly the edge relation -/
+theorem edge_iff_mem_succ (g : Graph) (a b : Id) : Edge g a b ↔ b ∈ succ g a := Graph.edge_iff_mem_succ g a b
+
+theorem closure_contains_seeds (g : Graph) (S : List Id) : ∀ s ∈ S, s ∈ closure g S :=
+  closure_contains_seeds' g S
+
+/-- the closure lies inside every closed set that contains the seeds -/
+theorem closure_least (g : Graph) (S : List Id) (T : Id → Prop) (hS : ∀ s ∈ S, T s)
+    (hT : ∀ t u, T t → Edge g t u → T u) : ∀ x ∈ closure g S, T x :=
+  closure_least' g S T hS hT
+
+/-- The fuel bound (number of nodes) suffices: `closure g S` is closed under the dependency
+relation, on a well-formed dump, for seeds that are ids of the dump. -/
+theorem closure_closed (g : Graph) (hwf : g.refsOk = true) (S : List Id) (hS : ∀ s ∈ S, s ∈ g.ids) :
+    ∀ t ∈ closure g S, ∀ u, Edge g t u → u ∈ closure g S :=
+  fun t ht u he => closure_closed' g hwf S hS t u ht he
+
+theorem closure_mono (g : Graph) (hwf : g.refsOk = true) (S S' : List Id) (hS' : ∀ s ∈ S', s ∈ g.ids)
+    (h : ∀ s ∈ S, s ∈ S') : ∀ x ∈ closure g S, x ∈ closure g S' :=
+  closure_least g S (· ∈ closure g S') (fun s hs => closure_contains_seeds g S' s (h s hs))
+    (fun t u ht he => closure_closed g hwf S' hS' t ht u he)
+
+/-- the seeds of a whitelist are ids of the dump (so `closure_closed` applies to them) -/
+theorem seeds_are_ids (g : Graph) (hwf : g.refsOk = true) (wl : Whitelist) : ∀ s ∈ seeds g wl, s ∈ g.ids :=
+  seeds_mem_ids hwf wl
+
+/-! ## Witness graphs (the hand-written specs `harness/specs/graph_m*`) -/
+
+/-- `struct S`, `struct T`, `alias TA = T`, `route r (S, Void, Void)` -/
+def gAlias : Graph :=
+  { nodes := [
+      { id := "a.S", kind := .struct, ns := "a", name := "S", fields := [{ name := "f" }] },
+      { id := "a.T", kind := .struct, ns := "a", name := "T", fields := [{ name := "g" }] },
+      { id := "a.TA", kind := .alias, ns := "a", name := "TA", target := .ref "a.T" },
+      { id := "a.r:1", kind := .route, ns := "a", name := "r", arg := .ref "a.S" }],
+    namespaces := [{ name := "a", routes := ["a.r:1"], dataTypes := ["a.S", "a.T"], aliases := ["a.TA"] }] }
+
+/-- `struct Arg "Compare :route:`other`."`, `route main (Arg, ..)`,
+`route other (OtherArg, ..) "Uses :type:`Mentioned`."` -/
+def gRouteDoc : Graph :=
+  { nodes := [
+      { id := "d.Arg", kind := .struct, ns := "d", name := "Arg", fields := [{ name := "a" }],
+        docRefs := [{ tag := "route", val := "other" }] },
+      { id := "d.OtherArg", kind := .struct, ns := "d", name := "OtherArg", fields := [{ name := "b" }] },
+      { id := "d.Mentioned", kind := .struct, ns := "d", name := "Mentioned", fields := [{ name := "c" }] },
+      { id := "d.main:1", kind := .route, ns := "d", name := "main", arg := .ref "d.Arg" },
+      { id := "d.other:1", kind := .route, ns := "d", name := "other", arg := .ref "d.OtherArg",
+        docRefs := [{ tag := "type", val := "Mentioned" }] }],
+    namespaces := [{ name := "d", routes := ["d.main:1", "d.other:1"],
+                     dataTypes := ["d.Arg", "d.OtherArg", "d.Mentioned"] }] }
+
+/-- `route main (Arg, ..) "See :route:`see_also:2`."`, `route see_also:2 (SeeArg, ..)` -/
+def gSeedDoc : Graph :=
+  { nodes := [
+      { id := "e.Arg", kind := .struct, ns := "e", name := "Arg", fields := [{ name := "a" }] },
+      { id := "e.SeeArg", kind := .struct, ns := "e", name := "SeeArg", fields := [{ name := "c" }] },
+      { id := "e.main:1", kind := .route, ns := "e", name := "main", arg := .ref "e.Arg",
+        docRefs := [{ tag := "route", val := "see_also:2" }] },
+      { id := "e.see_also:2", kind := .route, ns := "e", name := "see_also", version := 2, arg := .ref "e.SeeArg" }],
+    namespaces := [{ name := "e", routes := ["e.main:1", "e.see_also:2"], dataTypes := ["e.Arg", "e.SeeArg"] }] }
+
+/-- namespace `base`: `struct P { f String "Documented with :type:`Q`." }`, `struct Q`;
+namespace `derived`: `struct C extends base.P`, `struct Q`, `route r (C, ..)` -/
+def gInherit : Graph :=
+  { nodes := [
+      { id := "base.P", kind := .struct, ns := "base", name := "P",
+        fields := [{ name := "f", docRefs := [{ tag := "type", val := "Q" }] }] },
+      { id := "base.Q", kind := .struct, ns := "base", name := "Q", fields := [{ name := "g" }] },
+      { id := "derived.C", kind := .struct, ns := "derived", name := "C", parent := some "base.P",
+        fields := [{ name := "h" }] },
+      { id := "derived.Q", kind := .struct, ns := "derived", name := "Q", fields := [{ name := "x" }] },
+      { id := "derived.r:1", kind := .route, ns := "derived", name := "r", arg := .ref "derived.C" }],
+    namespaces := [{ name := "base", dataTypes := ["base.P", "base.Q"] },
+                   { name := "derived", routes := ["derived.r:1"], dataTypes := ["derived.C", "derived.Q"] }] }
+
+/-- the same without `derived.Q`: the real filter raises `KeyError('Q')` -/
+def gInheritCrash : Graph :=
+  { gInherit with
+    nodes := gInherit.nodes.filter (fun n => n.id != "derived.Q")
+    namespaces := [{ name := "base", dataTypes := ["base.P", "base.Q"] },
+                   { name := "derived", routes := ["derived.r:1"], dataTypes := ["derived.C"] }] }
+
+def wlOne (ns r : String) : Whitelist := { routes := [(ns, [r])], datatypes := [] }
+
+def typesOf (g : Graph) (wl : Whitelist) : Option (List Id) := (whitelistFilter g wl).toOption.map (·.types)
+def routesOf (g : Graph) (wl : Whitelist) : Option (List Id) := (whitelistFilter g wl).toOption.map (·.routes)
+def aliasesOf (g : Graph) (wl : Whitelist) : Option (List Id) := (whitelistFilter g wl).toOption.map (·.aliases)
+
+/-! ## The filter against the closure -/
+
+/-- MINIMALITY (full): no data type and no route outside the closure is retained. -/
+theorem filter_subset_closure (g : Graph) (wl : Whitelist) (r : Filtered) (hwf : g.refsOk = true)
+    (hda : docsAgree g = true) (h : whitelistFilter g wl = .ok r) :
+    (∀ t ∈ r.types, t ∈ closure g (seeds g wl)) ∧ (∀ rt ∈ r.routes, rt ∈ closure g (seeds g wl)) :=
+  filter_sound hwf hda h (closure_closed' g hwf _ (seeds_mem_ids hwf wl)) (closure_contains_seeds g _)
+
+/-- `docsAgree` cannot be dropped from `filter_subset_closure`: an inherited member's doc is read in
+the namespace of the child, `derived.Q` is retained instead of `base.Q`. -/
+example : gInherit.refsOk = true ∧ docsAgree gInherit = false ∧
+    typesOf gInherit (wlOne "derived" "r") = some ["derived.C", "derived.Q", "base.P"] ∧
+    closure gInherit (seeds gInherit (wlOne "derived" "r")) = ["derived.r:1", "derived.C", "base.P", "base.Q"] := by
+  decide
+
+/-- ... and when the child namespace has no such name the filter fails with `KeyError`. -/
+example : (match whitelistFilter gInheritCrash (wlOne "derived" "r") with
+    | .error (.keyError k) => k == "Q"
+    | _ => false) = true := by decide
+
+/-- the filter's `types` are data types, and each is a marked node of the walk -/
+theorem filter_types_are_types (g : Graph) (wl : Whitelist) (r : Filtered) (hwf : g.refsOk = true)
+    (hda : docsAgree g = true) (h : whitelistFilter g wl = .ok r) :
+    ∀ t ∈ r.types, g.isTypeId t = true := by
+  obtain ⟨st, wlRoutes, hrun, e1, _, _⟩ := filterRun_of_ok hwf hda h
+  intro t ht
+  rw [e1] at ht
+  exact ((hrun.inv.types t).1 ht).2
+
+/--
+PARTIAL. Full statement (`filter_eq_closure`): on a well-formed dump the data types retained by
+`whitelistFilter` are exactly the data types of `closure g (seeds g wl)`.
+What is missing: the statement is FALSE of the code for the edge kind "doc references of a route that
+is retained only because a doc mentions it" (`routeDocsClosed`; witness below), and the walk reads
+docs of inherited members in the child's namespace (`docsAgree`; witness above). Under these two
+explicit hypotheses (and `tagDefaultsOk`, which every compiled Api satisfies) the equality holds.
+-/
+theorem filter_eq_closure_partial (g : Graph) (wl : Whitelist) (r : Filtered) (hwf : g.refsOk = true)
+    (hda : docsAgree g = true) (htd : tagDefaultsOk g = true) (hrd : routeDocsClosed g wl = true)
+    (h : whitelistFilter g wl = .ok r) :
+    ∀ t, t ∈ r.types ↔ (t ∈ closure g (seeds g wl) ∧ g.isTypeId t = true) := by
+  intro t
+  constructor
+  · intro ht
+    exact ⟨(filter_subset_closure g wl r hwf hda h).1 t ht, filter_types_are_types g wl r hwf hda h t ht⟩
+  · rintro ⟨hc, hty⟩
+    obtain ⟨st, wlRoutes, hrun, e1, _, _⟩ := filterRun_of_ok hwf hda h
+    have hk := closure_least g _ (Known g wl st) (seeds_known hrun) (known_closed hwf hda htd hrd hrun) t hc
+    rw [e1]
+    rcases hk with hk | hk
+    · exact (hrun.inv.types t).2 ⟨hk, hty⟩
+    · have := known_route_kind hwf hrun hk
+      obtain ⟨n, hn, hr⟩ := isRouteId_iff.1 this
+      obtain ⟨n', hn', ht'⟩ := isTypeId_iff.1 hty
+      rw [hn] at hn'; cases hn'
+      rcases kind_cases n with h' | h' | h' <;> simp [hr, ht'] at h'
+
+/-- non-vacuity: the hypotheses of `filter_eq_closure_partial` hold on a graph where the filter removes a type -/
+example : gAlias.refsOk = true ∧ docsAgree gAlias = true ∧ tagDefaultsOk gAlias = true ∧
+    routeDocsClosed gAlias (wlOne "a" "r") = true ∧ typesOf gAlias (wlOne "a" "r") = some ["a.S"] := by decide
+
+/-- `routeDocsClosed` cannot be dropped: `d.other` is kept because the doc of `d.Arg` mentions it, its
+own doc mentions `d.Mentioned`, which is in the closure and is not retained. -/
+example : gRouteDoc.refsOk = true ∧ docsAgree gRouteDoc = true ∧ routeDocsClosed gRouteDoc (wlOne "d" "main") = false ∧
+    typesOf gRouteDoc (wlOne "d" "main") = some ["d.Arg", "d.OtherArg"] ∧
+    routesOf gRouteDoc (wlOne "d" "main") = some ["d.main:1", "d.other:1"] ∧
+    "d.Mentioned" ∈ closure gRouteDoc (seeds gRouteDoc (wlOne "d" "main")) := by decide
+
+/--
+PARTIAL. Full statement: the routes retained are exactly the routes of the closure. Missing: FALSE of
+the code for the edge kind "route mentioned in the doc of a whitelisted route or of a namespace named
+in the whitelist" - the code keeps the types of such a route and drops the route itself
+(`seedDocRoutesKept`; witness below).
+-/
+theorem filter_routes_eq_closure_partial (g : Graph) (wl : Whitelist) (r : Filtered) (hwf : g.refsOk = true)
+    (hda : docsAgree g = true) (htd : tagDefaultsOk g = true) (hrd : routeDocsClosed g wl = true)
+    (hsd : seedDocRoutesKept g wl = true) (h : whitelistFilter g wl = .ok r) :
+    ∀ x, x ∈ r.routes ↔ (x ∈ closure g (seeds g wl) ∧ g.isRouteId x = true) := by
+  obtain ⟨st, wlRoutes, hrun, _, e2, _⟩ := filterRun_of_ok hwf hda h
+  have hmem : ∀ x, x ∈ r.routes ↔ (x ∈ wlAllRouteIds g wl ∨ x ∈ st.routes) := by
+    intro x
+    rw [e2, mem_addAll, hrun.wlr]
+    simp
+  intro x
+  constructor
+  · intro hx
+    refine ⟨(filter_subset_closure g wl r hwf hda h).2 x hx, ?_⟩
+    rcases (hmem x).1 hx with h' | h'
+    · exact known_route_kind hwf hrun (Or.inl h')
+    · exact known_route_kind hwf hrun (Or.inr (Or.inl h'))
+  · rintro ⟨hc, hr⟩
+    have hk := closure_least g _ (Known g wl st) (seeds_known hrun) (known_closed hwf hda htd hrd hrun) x hc
+    rcases hk with hk | hk | hk | hk
+    · obtain ⟨kids, rts, he, _⟩ := seen_node hrun.inv hk
+      obtain ⟨n, hn, hnr⟩ := expand_node_kind he
+      obtain ⟨n', hn', hr'⟩ := isRouteId_iff.1 hr
+      rw [hn] at hn'; cases hn'
+      simp [hnr] at hr'
+    · exact (hmem x).2 (Or.inl hk)
+    · exact (hmem x).2 (Or.inr hk)
+    · -- mentioned in the doc of a whitelisted route / namespace: whitelisted itself, by `seedDocRoutesKept`
+      refine (hmem x).2 (Or.inl ?_)
+      simp only [seedDocRoutesKept, Bool.and_eq_true, List.all_eq_true] at hsd
+      obtain ⟨h1, h2⟩ := hsd
+      simp only [seedDocRoutes, List.mem_append, List.mem_flatMap] at hk
+      have hns : ∀ p ∈ wl.routes ++ wl.datatypes, x ∈ (nsDocSeeds g p.1).filter g.isRouteId →
+          x ∈ wlAllRouteIds g wl := by
+        intro p hp hx
+        have := h2 p.1 (by
+          simp only [List.mem_append, List.mem_map]
+          rcases List.mem_append.1 hp with hp | hp
+          · exact Or.inl ⟨p, hp, rfl⟩
+          · exact Or.inr ⟨p, hp, rfl⟩) x hx
+        simpa using this
+      rcases hk with ⟨p, hp, hx | ⟨rt, hrt, hx⟩⟩ | ⟨p, hp, hx⟩
+      · exact hns p (List.mem_append_left _ hp) hx
+      · obtain ⟨nd, hnd, _, hnsd⟩ := wlRouteIds_route hwf hrt
+        have hw : rt ∈ wlAllRouteIds g wl := by
+          simp only [wlAllRouteIds, List.mem_flatMap]; exact ⟨p, hp, hrt⟩
+        have := h1 rt hw
+        simp only [hnd, List.all_eq_true] at this
+        have hx' : x ∈ (docTargets g nd.ns nd.docRefs).filter g.isRouteId := by
+          have := mem_specDocs_routes.1 hx
+          simp only [docsOf, hnd, ← hnsd] at this
+          exact List.mem_filter.2 this
+        simpa using this x hx'
+      · exact hns p (List.mem_append_right _ hp) hx
+
+/-- `seedDocRoutesKept` cannot be dropped: `e.see_also:2` is mentioned in the doc of the whitelisted
+`e.main`; its argument type is retained, the route is not. -/
+example : gSeedDoc.refsOk = true ∧ docsAgree gSeedDoc = true ∧ routeDocsClosed gSeedDoc (wlOne "e" "main") = true ∧
+    seedDocRoutesKept gSeedDoc (wlOne "e" "main") = false ∧
+    typesOf gSeedDoc (wlOne "e" "main") = some ["e.Arg", "e.SeeArg"] ∧
+    routesOf gSeedDoc (wlOne "e" "main") = some ["e.main:1"] ∧
+    "e.see_also:2" ∈ closure gSeedDoc (seeds gSeedDoc (wlOne "e" "main")) := by decide
+
+/-! ## Whitelisted items are kept -/
+
+/-- every whitelisted route (`"*"` = all routes of the namespace, `name`, `name:version`) is retained -/
+theorem routes_kept (g : Graph) (wl : Whitelist) (r : Filtered) (hwf : g.refsOk = true)
+    (hda : docsAgree g = true) (h : whitelistFilter g wl = .ok r) :
+    ∀ p ∈ wl.routes, ∀ rt ∈ wlRouteIds g p.1 p.2, rt ∈ r.routes := by
+  obtain ⟨st, wlRoutes, hrun, _, e2, _⟩ := filterRun_of_ok hwf hda h
+  intro p hp rt hrt
+  rw [e2, mem_addAll, hrun.wlr]
+  refine Or.inr (List.mem_append_left _ ?_)
+  simp only [wlAllRouteIds, List.mem_flatMap]
+  exact ⟨p, hp, hrt⟩
+
+/-- every whitelisted data type is retained -/
+theorem types_kept (g : Graph) (wl : Whitelist) (r : Filtered) (hwf : g.refsOk = true)
+    (hda : docsAgree g = true) (h : whitelistFilter g wl = .ok r) :
+    ∀ p ∈ wl.datatypes, ∀ name ∈ p.2, ∀ t, g.typeByName p.1 name = some t → t ∈ r.types := by
+  obtain ⟨st, wlRoutes, hrun, e1, _, _⟩ := filterRun_of_ok hwf hda h
+  intro p hp name hname t ht
+  rw [e1]
+  have hs : Item.node t ∈ st.seen :=
+    start_seen hrun (hrun.startTy p hp t (by simp only [List.mem_flatMap]; exact ⟨name, hname, by simp [ht]⟩))
+  obtain ⟨n, hn, hty, _⟩ := typeByName_some ht
+  exact (hrun.inv.types t).2 ⟨hs, isTypeId_iff.2 ⟨n, hn, hty⟩⟩
+
+example : routesOf gAlias { routes := [("a", ["*"])], datatypes := [("a", ["T"])] } = some ["a.r:1"] ∧
+    typesOf gAlias { routes := [("a", ["*"])], datatypes := [("a", ["T"])] } = some ["a.S", "a.T"] := by decide
+
+/-! ## No dangling reference -/
+
+/-- `hardRefs` lists exactly the held references -/
+theorem mem_hardRefs_iff (g : Graph) (a b : Id) : b ∈ hardRefs g a ↔ HardEdge g a b := by
+  constructor
+  · intro h
+    simp only [hardRefs] at h
+    split at h
+    · rename_i n hn
+      simp only [Node.hardRefs] at h
+      split at h
+      · rename_i hk
+        have ht : n.isType = true := by simp [Node.isType, hk]
+        simp only [List.mem_append, List.mem_flatMap] at h
+        rcases h with (⟨f, hf, hb⟩ | hp) | hs
+        · exact .fieldType hn ht hf hb
+        · exact .parent hn ht (by simpa [Option.mem_toList] using hp)
+        · exact .subtype hn hk hs
+      · rename_i hk
+        have ht : n.isType = true := by simp [Node.isType, hk]
+        simp only [List.mem_append, List.mem_flatMap] at h
+        rcases h with ⟨f, hf, hb⟩ | hp
+        · exact .fieldType hn ht hf hb
+        · exact .parent hn ht (by simpa [Option.mem_toList] using hp)
+      · rename_i hk
+        exact .aliasTarget hn hk h
+      · rename_i hk
+        simp only [List.mem_append] at h
+        rcases h with (h | h) | h
+        · exact .routeArg hn hk h
+        · exact .routeResult hn hk h
+        · exact .routeError hn hk h
+    · simp at h
+  · intro h
+    cases h with
+    | fieldType hn ht hf hb =>
+      rename_i n f
+      simp only [hardRefs, hn, Node.hardRefs]
+      simp only [Node.isType, Bool.or_eq_true, beq_iff_eq] at ht
+      rcases ht with ht | ht <;> simp only [ht, List.mem_append, List.mem_flatMap]
+      · exact Or.inl (Or.inl ⟨f, hf, hb⟩)
+      · exact Or.inl ⟨f, hf, hb⟩
+    | parent hn ht hp =>
+      rename_i n
+      simp only [hardRefs, hn, Node.hardRefs]
+      simp only [Node.isType, Bool.or_eq_true, beq_iff_eq] at ht
+      rcases ht with ht | ht <;> simp [ht, hp]
+    | subtype hn hk hb => simp [hardRefs, hn, Node.hardRefs, hk, hb]
+    | aliasTarget hn hk hb => simp [hardRefs, hn, Node.hardRefs, hk, hb]
+    | routeArg hn hk hb => simp [hardRefs, hn, Node.hardRefs, hk, hb]
+    | routeResult hn hk hb => simp [hardRefs, hn, Node.hardRefs, hk, hb]
+    | routeError hn hk hb => simp [hardRefs, hn, Node.hardRefs, hk, hb]
+
+/-- the full statement of `no_dangling` is FALSE of the code: every alias is retained, also when its
+target was removed (hand spec `graph_m1_alias`: the generated module raises `NameError`). -/
+example : aliasesOf gAlias (wlOne "a" "r") = some ["a.TA"] ∧ typesOf gAlias (wlOne "a" "r") = some ["a.S"] ∧
+    "a.T" ∈ hardRefs gAlias "a.TA" := by decide
+
+/--
+PARTIAL. Full statement (`no_dangling`): every reference held by a retained item (data type, route,
+alias) names a retained item. Missing: aliases the walk did not reach - all aliases are retained, and
+such an alias may refer to a removed data type (witness above). Proved: every reference held by a
+retained data type, by a retained route, or by an alias the walk reached names a retained data type
+or an alias the walk reached (so the chain through aliases ends in retained types).
+-/
+theorem no_dangling_partial (g : Graph) (wl : Whitelist) (r : Filtered) (hwf : g.refsOk = true)
+    (hda : docsAgree g = true) (h : whitelistFilter g wl = .ok r) :
+    ∀ a, (a ∈ r.types ∨ a ∈ r.routes ∨ a ∈ r.reachedAliases g) → ∀ b ∈ hardRefs g a,
+      (b ∈ r.types ∨ b ∈ r.reachedAliases g) := by
+  obtain ⟨st, wlRoutes, hrun, e1, e2, e4⟩ := filterRun_of_ok hwf hda h
+  have hreached : ∀ i, i ∈ r.reachedAliases g ↔ (Item.node i ∈ st.seen ∧ g.isAliasId i = true) := by
+    intro i
+    simp only [Filtered.reachedAliases, e4, List.mem_filterMap]
+    constructor
+    · rintro ⟨it, hit, hx⟩
+      cases it with
+      | node j =>
+        simp only at hx
+        split at hx
+        · rename_i hal
+          have : j = i := by simpa using hx
+          subst this
+          exact ⟨hit, hal⟩
+        · simp at hx
+      | field o f c => simp at hx
+    · rintro ⟨h1, h2⟩
+      exact ⟨.node i, h1, by simp [h2]⟩
+  intro a ha b hb
+  have hedge := (mem_hardRefs_iff g a b).1 hb
+  have hknown : Known g wl st a := by
+    rcases ha with ha | ha | ha
+    · rw [e1] at ha
+      exact Or.inl ((hrun.inv.types a).1 ha).1
+    · rw [e2, mem_addAll, hrun.wlr] at ha
+      rcases ha with ha | ha
+      · simp at ha
+      · rcases List.mem_append.1 ha with ha | ha
+        · exact Or.inr (Or.inl ha)
+        · exact Or.inr (Or.inr (Or.inl ha))
+    · exact Or.inl ((hreached a).1 ha).1
+  have hseen := known_closed_hard hwf hda hrun hknown hedge
+  obtain ⟨kids, rts, he, _⟩ := seen_node hrun.inv hseen
+  obtain ⟨n, hn, hnr⟩ := expand_node_kind he
+  rcases kind_cases n with h' | h' | h'
+  · left
+    rw [e1]
+    exact (hrun.inv.types b).2 ⟨hseen, isTypeId_iff.2 ⟨n, hn, h'.1⟩⟩
+  · right
+    exact (hreached b).2 ⟨hseen, isAliasId_iff.2 ⟨n, hn, h'.2.1⟩⟩
+  · simp [hnr] at h'
 
 end StoneVerif.C20
